@@ -665,7 +665,13 @@ func (ev *evaluator) evalQuant(x *EQuant) SV {
 	ev.bound = append(ev.bound, scope)
 	body := ev.evalBool(x.Body)
 	var pats []string
+	var altPats []string // completed alternative patterns
 	for _, tr := range x.Triggers {
+		if tr == nil {
+			altPats = append(altPats, ":pattern ("+strings.Join(pats, " ")+")")
+			pats = nil
+			continue
+		}
 		sv := ev.eval(tr)
 		if tt, ok := sv.V.(Term); ok {
 			pats = append(pats, tt.S)
@@ -682,7 +688,8 @@ func (ev *evaluator) evalQuant(x *EQuant) SV {
 		body = tAnd(append(guards, body)...)
 	}
 	if len(pats) > 0 {
-		return SV{T(SBool, fmt.Sprintf("(%s (%s) (! %s :pattern (%s)))", q, strings.Join(decl, " "), body.S, strings.Join(pats, " "))), types.Typ[types.Bool]}
+		altPats = append(altPats, ":pattern ("+strings.Join(pats, " ")+")")
+		return SV{T(SBool, fmt.Sprintf("(%s (%s) (! %s %s))", q, strings.Join(decl, " "), body.S, strings.Join(altPats, " "))), types.Typ[types.Bool]}
 	}
 	return SV{T(SBool, fmt.Sprintf("(%s (%s) %s)", q, strings.Join(decl, " "), body.S)), types.Typ[types.Bool]}
 }
@@ -732,7 +739,11 @@ func (ev *evaluator) selectField(base SV, sel string, x Expr) SV {
 		}
 		hn := structHeapName(n, f.Name())
 		if _, nested := isNestedStructField(f.Type()); nested {
-			return SV{tSelect(ev.heap(hn, SInt), obj), f.Type()}
+			inner := tSelect(ev.heap(hn, SInt), obj)
+			// nested structs of different fields / owners are different objects (same facts the executor
+			// adds when the code takes the field's address)
+			ev.fc.nestedFact(ev.curState(), inner, obj, hn)
+			return SV{inner, f.Type()}
 		}
 		ft := f.Type()
 		// instantiate field types of generic structs: type parameters map to Hdr anyway
